@@ -247,11 +247,93 @@ def run(ctx, cases=None):
     res = sysrun.run(ctx, [ctx.seed * 100000 + 500 + i for i in range(n)], 16, ['mon_c06'], do_corr='pipeline',
                      model_exe=_pipeline_exe(ctx))
     system_gate(ctx, res)
+    job_settings_tie(ctx)
     hs = api_body_histories()
     ctx.count('api_body_histories', len(hs))
     sysrun.run(ctx, [], 0, ['mon_c06'], do_corr=False, replay_history=hs)
     from lib import authoropts
     authoropts.check(ctx, relevant=['bypass_build_status'])     # "bypassed by ... per-author setting"
+
+
+def job_settings_tie(ctx):
+    """Model/JobSettings.v against the real Job / SettingsDict / Reactor.init_settings: jobs built the three ways the
+    code builds them (no settings argument, an empty map, the JSON body of an API request), SEVERAL in one process,
+    each initialised, written to and read; the model is evaluated by the Coq kernel on the very same jobs."""
+    import bert_e.workflow.gitwaterflow as gwf
+    from bert_e.job import Job, PullRequestJob
+    from bert_e.reactor import Reactor
+    gwf.setup({})
+    reactor = Reactor()
+    codes = {}
+
+    def code(v):
+        k = repr(sorted(v)) if isinstance(v, (set, frozenset)) else repr(v)
+        return codes.setdefault(k, len(codes))
+    opts = [(k, code(o.default)) for k, o in Reactor.get_options().items()]
+    optkeys = [k for k, _ in opts]
+    rng = ctx.rng
+    inst_keys = ['build_key', 'robot', 'admins', 'required_peer_approvals', 'use_queue', 'jira_keys']
+    other = ['pr_id', 'no_comment', 'branch']
+    items = []
+    bert_e_inst = {k: 'inst-%s' % k for k in inst_keys}
+    bert_e = SimpleNamespace(settings=bert_e_inst, project_repo=None, git_repo=None)
+    for _ in range(60 if ctx.quick else 600):
+        jobs = []
+        for _j in range(rng.randint(1, 3)):
+            how = rng.choice(['none', 'none', 'empty', 'body'])
+            body = None
+            if how == 'empty':
+                body = {}
+            elif how == 'body':
+                body = {k: rng.choice([True, 'x', '', 0]) for k in rng.sample(optkeys[:6] + inst_keys + other, rng.randint(1, 4))}
+            writes = [(rng.choice(optkeys + inst_keys[:2]), rng.choice([True, False, 'w'])) for _w in range(rng.randint(0, 3))]
+            reads = rng.sample(optkeys, min(4, len(optkeys))) + rng.sample(inst_keys + other + ['unknown'], 4)
+            jobs.append((how, body, writes, reads))
+        for how, body, writes, reads in jobs:          # the jobs of one case run one after the other in this process
+            if how == 'none':
+                job = PullRequestJob(bert_e=bert_e, pull_request=SimpleNamespace(id=1, author='a', comments=[]))
+            else:
+                job = Job(bert_e=bert_e, settings=body)
+            reactor.init_settings(job)
+            for k, v in writes:
+                job.settings[k] = v
+            got = [job.settings.get(k, '<<absent>>') for k in reads]
+            ctx.evaluations += 1
+            inst = [(k, code(v)) for k, v in bert_e_inst.items()]
+            given = None if how == 'none' else [(k, code(v)) for k, v in (body or {}).items()]
+            want = ['None' if g == '<<absent>>' else 'Some %d' % code(g) for g in got]
+            items.append(({'built': how, 'body': body, 'writes': writes, 'reads': reads,
+                           'read_values': [repr(g) for g in got]},
+                          (opts, inst, given, [(k, code(v)) for k, v in writes], reads), want))
+    ctx.count('job_settings_jobs', len(items))
+
+    def smap(m):
+        return '[' + '; '.join('("%s"%%string, %d)' % (k, v) for k, v in m) + ']'
+    d = os.path.join(core.BUILD, 'cross', 'jobsettings')
+    os.makedirs(d, exist_ok=True)
+    lines = ['From Coq Require Import List String.', 'Require Import BertE.Model.JobSettings.', 'Import ListNotations.']
+    for i, (_inp, (o, inst, given, writes, reads), want) in enumerate(items):
+        lines.append('Example js_%d : job_reads %s %s %s %s %s = [%s].\nProof. vm_compute. reflexivity. Qed.' % (
+            i, smap(o), smap(inst), 'None' if given is None else '(Some %s)' % smap(given), smap(writes),
+            '[' + '; '.join('"%s"%%string' % k for k in reads) + ']', '; '.join(want)))
+    path = os.path.join(d, 'cases.v')
+    with open(path, 'w') as f:
+        f.write('\n'.join(lines) + '\n')
+    with core.Lock():
+        rc, out = core.sh('timeout 900 coqc -Q %s BertE -w -notation-overridden cases.v' % core.COQ, cwd=d)
+    if rc != 0:
+        import re
+        bad = None
+        m = re.search(r'line (\d+)', out)
+        if m:
+            text = open(path).read().split('\n')
+            for j in range(min(int(m.group(1)), len(text)) - 1, -1, -1):
+                mm = re.match(r'^Example js_(\d+) ', text[j])
+                if mm:
+                    bad = items[int(mm.group(1))]
+                    break
+        ctx.mismatch(bad[0] if bad else {'file': path}, bad[2] if bad else 'job', 'vm_compute of job_reads disagrees: %s'
+                     % out[-500:], 'JobSettings.job_reads (Coq kernel) vs Job / SettingsDict / Reactor.init_settings')
 
 
 def api_body_histories():
